@@ -436,5 +436,25 @@ func collisionThroughRefsCases(stream string) []*core.PCase {
 		doc := M{"p0": vals[0], "p1": vals[1], "p2": vals[2]}
 		pcs = append(pcs, baseCase(stream, schema, []any{doc}, fmt.Sprint(es)))
 	}
+	// the colliding definitions used as allOf / anyOf branches (whatever is kept per reference must be kept per
+	// DEFINITION, not per normalised name), every subset of two or three of them, in both orders of use
+	for _, kw := range []string{"allOf", "anyOf"} {
+		for _, use := range [][]int{{0, 1}, {1, 0}, {0, 2}, {2, 0}, {1, 2}, {2, 1}, {0, 1, 2}, {2, 1, 0}} {
+			defs := M{}
+			for i, nm := range collNames {
+				defs[nm] = M{"type": "object", "properties": M{fmt.Sprintf("own%d", i): M{"type": "integer"}}, "required": []any{fmt.Sprintf("own%d", i)}}
+			}
+			props, doc := M{}, M{}
+			for k, i := range use {
+				// property names in the order of use (properties are visited in sorted order)
+				name := fmt.Sprintf("u%d", k)
+				extra := fmt.Sprintf("extra%d", k)
+				props[name] = M{kw: []any{M{"$ref": "#/$defs/" + collNames[i]}, M{"type": "object", "properties": M{extra: M{"type": "boolean"}}, "required": []any{extra}}}}
+				doc[name] = M{fmt.Sprintf("own%d", i): 10 + i, extra: true}
+			}
+			schema := M{"type": "object", "properties": props, "$defs": defs}
+			pcs = append(pcs, baseCase(stream, schema, []any{doc}, kw, fmt.Sprint(use)))
+		}
+	}
 	return pcs
 }
